@@ -86,6 +86,21 @@ pub fn replay(a: &Args) -> Report {
           }
         }
         rep.nontrivial(format!("{li}:{pool}:{p}"));
+        // the same server object asked again gives the same answer (no state carried between calls)
+        if p == 0 {
+          if let Guard::Done(o2) = guard(|| tp.install(|| agg.retrieve_outputs(&input))) {
+            let mut again: BTreeMap<Vec<u8>, Vec<Vec<u8>>> = BTreeMap::new();
+            for o in o2 {
+              let mut auxes: Vec<Vec<u8>> = o.aux.iter().map(|a| a.as_ref().map(|x| x.as_vec()).unwrap_or_default()).collect();
+              auxes.sort();
+              again.insert(o.x.as_vec(), auxes);
+            }
+            if again != got {
+              rep.violation("C18", "AggregationServer::retrieve_outputs", "second-call-differs",
+                "calling retrieve_outputs twice on the same server and input gives different outputs".into(), ctx.clone());
+            }
+          }
+        }
         if dup {
           rep.violation("C18", "AggregationServer::retrieve_outputs", "measurement-twice",
             "a measurement was output more than once".into(), ctx.clone());
